@@ -39,15 +39,20 @@ ASSUMPTIONS = common.BASE_ASSUMPTIONS + [
 REAL_VS_STUB = common.REAL_VS_STUB
 QUICK_RUNS = 14000
 LOOP_BUDGET = 50_000_000
+LONG_RUN_EVERY = 61  # one seed in 61 sends a long homogeneous stretch of stream
+OVERSIZE_EVERY = 47  # one seed in 47 hands parse() an input longer than a U2 length can describe
 EXPECTED_PROBES = {
     t: [
         "len_class:zero", "len_class:short", "len_class:defined", "len_class:longer", "A-array_truncated", "mga_empty_payload",
         "policy_0", "policy_1", "policy_2", "serial_runs", "stall_runs", "raised:UBXMessageError", "raised:UBXTypeError",
         "raised:UBXParseError", "raised:UBXStreamError", "raised:NMEAParseError", "raised:RTCMParseError",
+        "long_run_wires", "oversize_inputs_parsed",
     ]
     for t in ("quick", "thorough")
 }
 INSPECT = ("identity", "length", "payload", "msgmode", "msg_cls", "msg_id")
+_LAST_COST = [0]  # loop iterations of the last parse() (deterministic cost measure)
+HEAVY = 120_000  # a parse costing more than this many loop iterations is not repeated under all 16 option sets
 
 
 def generate(seed: int, tier: str = "quick", index=None) -> dict:
@@ -71,6 +76,14 @@ def generate(seed: int, tier: str = "quick", index=None) -> dict:
     n = r_cfg.choice((0, 0, 1, 2, 4))
     rest = common.gen_mixed_frames(r_dev, r_lnk, n, cfg, pre, variant_fault=True) if n else []
     frames = rest[: len(rest) // 2] + [head] + rest[len(rest) // 2 :]
+    long_style = None
+    if (seed if index is None else index) % LONG_RUN_EVERY == LONG_RUN_EVERY - 1:
+        # a long homogeneous stretch (>= 1000 tiny frames / thousands of noise bytes) before the head frame
+        run, long_style = device.long_run(r_dev)
+        frames = [{"kind": k, "hex": b.hex(), "faults": [], "note": note2} for k, b, note2 in run] + [head]
+        cfg["protfilter"] = r_cfg.choice((1, 2, 3, 4, 5, 6, 7))
+        if cfg["quitonerror"] == 2:
+            cfg["quitonerror"] = r_cfg.choice((0, 1))
     spans = sched.spans_of(frames)
     wire_len = spans[-1][1] if spans else 0
     roll = r_sch.random()
@@ -96,7 +109,7 @@ def generate(seed: int, tier: str = "quick", index=None) -> dict:
                 s[0] = round(s[0] + 2.0, 6)
         segs.sort(key=lambda s: s[0])
         tr = {"kind": "serial", "segments": segs, "timeout": 1.0, "stress": "short_read"}
-    return {"seed": seed, "mode": "reader", "config": cfg, "frames": frames, "transport": tr, "pre_faults": dict(pre), "entry": idx}
+    return {"seed": seed, "mode": "reader", "config": cfg, "frames": frames, "transport": tr, "pre_faults": dict(pre), "entry": idx, "long_run": long_style}
 
 
 def _inspect(obj):
@@ -170,6 +183,9 @@ def _judge_reader(scn, res=None):
             c.hit("fault_stall", getattr(tp, "midstream_timeouts", 0))
         if scn["transport"]["kind"] == "serial":
             c.hit("fault_short_read", tp.short_reads)
+        if scn.get("long_run"):
+            c.hit("long_run_wires")
+            c.hit("long_run:" + scn["long_run"])
         for e in errors:
             c.hit("raised:" + type(e).__name__)
         for k, v in (scn.get("pre_faults") or {}).items():
@@ -184,9 +200,14 @@ def _judge_parse(data: bytes, msgmode, validate, parsebitfield):
     from pyubx2 import UBXReader  # pylint: disable=import-outside-toplevel
     import pyubx2.exceptions as ube  # pylint: disable=import-outside-toplevel
 
+    meter = StepMeter(LOOP_BUDGET)
+    _LAST_COST[0] = 0
     try:
-        with StepMeter(LOOP_BUDGET):
-            msg = UBXReader.parse(data, msgmode=msgmode, validate=validate, parsebitfield=parsebitfield)
+        try:
+            with meter:
+                msg = UBXReader.parse(data, msgmode=msgmode, validate=validate, parsebitfield=parsebitfield)
+        finally:
+            _LAST_COST[0] = meter.used
     except (ube.UBXParseError, ube.UBXMessageError, ube.UBXTypeError, ube.UBXStreamError) as err:
         return None, type(err).__name__
     except SimBudgetExceeded as err:
@@ -255,14 +276,24 @@ def run_unit(unit) -> UnitResult:
         res.violations.append(bad)
     # the parse() half: every UBX frame on the wire, all option combinations
     seen_parse_violation = False
+    seen_frames = set()
     for f in scn["frames"]:
         if f["kind"] != "ubx":
             continue
         data = link.frame_bytes(f)
+        if data in seen_frames:
+            continue
+        seen_frames.add(data)
+        heavy = False
         for mm in (0, 1, 2, 3):
             for val in (1, 0):
                 for pbf in (1, 0):
+                    if heavy and (val, pbf) != (1, 1):
+                        continue
                     pv, outcome = _judge_parse(data, mm, val, pbf)
+                    if _LAST_COST[0] > HEAVY:
+                        heavy = True
+                        c.hit("heavy_parses")
                     res.evaluations += 1
                     if outcome:
                         c.hit("parse:" + outcome)
@@ -281,6 +312,15 @@ def run_unit(unit) -> UnitResult:
         strings.append(wire[a : a + r_arb.randrange(0, 64)])
         strings.append(hb[: r_arb.randrange(0, len(hb) + 1)])
         strings.append(hb[:6] + device.garbage(r_arb, n=r_arb.randrange(0, 12)) + hb[-2:])
+    if (seed if unit.get("index") is None else unit["index"]) % OVERSIZE_EVERY == OVERSIZE_EVERY - 1:
+        # inputs whose size no 16-bit length field can describe (with right, zero, maximal and random length fields)
+        body = hb[2:4] + r_arb.choice((b"\x00\x00", b"\xff\xff", b"\x01\x00", bytes((r_arb.randrange(256), r_arb.randrange(256)))))
+        big = b"\xb5\x62" + body + bytes(r_arb.choice((65528, 65536, 65540, 70000)))
+        from sim import wire as W  # pylint: disable=import-outside-toplevel
+
+        strings.append(big + W.fletcher8(big[2:]))
+        strings.append(b"\xb5\x62\x99\x99" + body[2:] + bytes(66000) + b"\x00\x00")
+        c.hit("oversize_inputs_parsed", 2)
     for data in strings:
         mm, val, pbf = r_arb.randrange(4), r_arb.randrange(2), r_arb.randrange(2)
         pv, outcome = _judge_parse(data, mm, val, pbf)
